@@ -61,7 +61,7 @@ fn simulate_fork(case: &HistCase, x: usize, from: usize) -> Result<Hist, String>
         return Err("parser rejects".into());
     }
     let counter = std::cell::Cell::new(0usize);
-    let (particle, log, peers, inconclusive, quiescent) = {
+    let (particle, log, peers, inconclusive, quiescent, dropped) = {
         let mut sim = Sim::new(&script);
         let script_ref = &script;
         sim.service_override = Some(Box::new(move |pi: usize, req: &Request| {
@@ -113,9 +113,9 @@ fn simulate_fork(case: &HistCase, x: usize, from: usize) -> Result<Hist, String>
             None => sim.run_schedule(&case.sched),
         }
         let q = sim.quiescent();
-        (sim.particle.clone(), std::mem::take(&mut sim.log), std::mem::take(&mut sim.peers), sim.inconclusive, q)
+        (sim.particle.clone(), std::mem::take(&mut sim.log), std::mem::take(&mut sim.peers), sim.inconclusive, q, sim.dropped_msgs)
     };
-    Ok(Hist { script, particle, log, peers, inconclusive, quiescent })
+    Ok(Hist { script, particle, log, peers, inconclusive, quiescent, dropped })
 }
 
 impl Property for C15 {
